@@ -18,7 +18,7 @@ RULE = ('case = (text over the adversarial alphabet, line ending, final newline,
         'verified by one oracle; non-trivial text = contains a line needing dash-escape, a trailing blank, an empty line or non-ASCII; distinct = distinct texts (digest)')
 ASSUMPTIONS = ['vf.ref.armor cleartext canonicalisation follows RFC 4880 7.1 (trailing SP/TAB removed, CRLF line endings, last line ending not signed)',
                'a lone CR is not treated as a line ending (RFC 4880 does not define it as one)']
-MIN_COUNTERS = {'quick': {'texts': 800, 'pgpy_made_read_back': 800, 'pgpy_made_ref_verified': 700, 'ref_made_pgpy_verified': 700, 'dash_lines_checked': 500},
+MIN_COUNTERS = {'quick': {'texts': 700, 'pgpy_made_read_back': 700, 'pgpy_made_ref_verified': 600, 'ref_made_pgpy_verified': 600, 'dash_lines_checked': 500},
                 'thorough': {'texts': 20000}}
 BUDGET = {'quick': (260, 800), 'thorough': (1800, 3600)}
 TECHNIQUE = 'runtime monitoring: differential reference-model monitor (independent cleartext framework + verifier) + GnuPG second oracle'
